@@ -399,13 +399,19 @@ def gen_plan(seed, tier, idx):
             p1 = [a, rng2.choice(NORMAL)]
             p2 = [b] + [rng2.choice(NORMAL) for _ in range(rng2.randint(0, 2))] + [rng2.choice(HARDENED)]
             p3 = [b] + p2[1:-1] + [rng2.choice(NORMAL)]
+        # the refusal may sit in the MIDDLE of P2 (levels after it were requested but never derived) ...
+        p2 = p2 + [rng2.choice(NORMAL) for _ in range(rng2.choice([0, 0, 1, 2]))]
+        # ... and a fourth lookup asks for the refused path again, or for a sibling below the refused step:
+        # it must be refused again, whatever the failed call left behind
+        p4 = list(p2) if (len(p2) < 2 or rng2.random() < 0.5) else p2[:-1] + [rng2.choice(NORMAL)]
         mk_ = "'"
         rootc = "m" if private else rng2.choice(["m", "M"])
         trip = []
-        for k_, pth in enumerate((p1, p2, p3)):
+        seq = [(0, p1), (1, p2)] + rng2.sample([(2, p3), (3, p4)], 2)
+        for k_, pth in seq:
             nm = "c%d.t%d" % (c, k_)
             trip.append({"op": "by_path", "root": r, "s": fmt_path(pth, mk_, rootc), "path": pth, "out": nm})
-            if k_ != 1:
+            if k_ in (0, 2):
                 g._add(nm, r, pth, private, "c%d" % c)
         at = rng2.randint(0, len(ops))
         follow = {"op": rng2.choice(["node", "ext_keys", "str"]), "h": "c%d.t2" % c}
@@ -922,7 +928,7 @@ class ThreadsSim(Simulator):
 
     # ----------------------------------------------------------------------- reporting
     def secondary_backends(self, prop, tier):
-        return [] if tier == "quick" else [("stub", None, 150)]
+        return [] if tier == "quick" else [("stub", None, 150), ("ecdsa-O", None, 60)]
 
     def quick_runs(self, prop):
         return int(os.environ.get("VERIF_C13_RUNS", "720"))
